@@ -12,7 +12,7 @@ import DeepModel.Props.C16
 #print axioms C16.c16_default_logger
 #print axioms C16.c16_snapshot_agrees
 #print axioms C16.c16_no_logger
-#print axioms C16.c16_falsy_logger_witness
+#print axioms C16.c16_falsy_logger_still_logs
 #print axioms C16.c16_snapshot_watches
 #print axioms C16.c16_one_per_hit
 #print axioms C16.c16_malformed_nothing
